@@ -269,7 +269,7 @@ class Gen:
         self.heads = set()
         self.prefix = 'w'
         self.f = features or set(['emph', 'strong', 'code', 'link', 'image', 'esc', 'entity', 'break', 'quote', 'list', 'codeblock', 'rule',
-                                  'heading', 'table', 'deflist', 'footnote', 'math', 'supsub', 'autolink'])
+                                  'heading', 'table', 'deflist', 'footnote', 'math', 'supsub', 'autolink', 'nested-footnote'])
 
     def word(self, prefix=None):
         """prefix: w body text, u attribute-like text (urls, titles, alt, captions), f note text, h heading text, c verbatim"""
@@ -303,6 +303,11 @@ class Gen:
             elif k < 0.70 and 'footnote' in allow and depth == 0:
                 ident = 'fn%d' % (len(self.foot) + 1)
                 self.foot[ident] = [Text(self.words(2, 5, 'f'))]
+                if 'nested-footnote' in allow and r.random() < 0.25:
+                    # a note that is only ever called from inside another note
+                    inner = 'fn%d' % (len(self.foot) + 1)
+                    self.foot[inner] = [Text(self.words(2, 4, 'f'))]
+                    self.foot[ident] += [Text(' '), FootRef(inner), Text(' ' + self.word('f'))]
                 node = FootRef(ident)
             elif k < 0.74 and 'math' in allow:
                 node = Math(r.choice(['x^2', 'a_b + c', '\\frac{1}{2}', 'e = mc^2', 'a < b']))
